@@ -156,7 +156,8 @@ impl autosar_data::verif::FsHooks for SimFs {
     }
 
     fn write(&self, path: &Path, contents: &[u8]) -> io::Result<()> {
-        crate::engine::engine().io_point();
+        // no scheduling point and no simulated cost per file: how many files a failing write() gets to before it meets
+        // the failing one depends on the random order of a HashMap; the caller (ops.rs) accounts for one access per call
         let armed = ARMED.with(|c| c.borrow().clone());
         let mut st = self.m.lock().unwrap_or_else(|e| e.into_inner());
         st.counters.writes += 1;
